@@ -220,17 +220,30 @@ Fixpoint rsched (cl : fname -> slot) (prog : list ract) (l : list (bool * fname)
    of THAT object provides at THAT moment; AttributeError if it provides nothing.
    Classes are identified with backend names (name_of); v = which implementation (0 native, k > 0 the k-th registered). *)
 Inductive mslot := MInherit | MMissing | MHas (v : nat).
-Record hcfg := { cparent : name -> option name }.
+(* cparent: the direct base class among the backend classes; cdepth: a bound on the length of the parent chains (the MRO of
+   a class is finite); a look-up walks up the chain while the class inherits the name *)
+Record hcfg := { cparent : name -> option name; cdepth : nat }.
 Definition mtab := name -> fname -> mslot.
 
-Definition lookup (H : hcfg) (mt : mtab) (cl : name) (n : fname) : option nat :=
+Fixpoint lookup_d (fuel : nat) (H : hcfg) (mt : mtab) (cl : name) (n : fname) : option nat :=
   match mt cl n with
   | MHas v => Some v
   | MMissing => None
-  | MInherit => match cparent H cl with
-                | Some p => match mt p n with MHas v => Some v | _ => None end
-                | None => None
+  | MInherit => match fuel with
+                | O => None
+                | S f => match cparent H cl with Some p => lookup_d f H mt p n | None => None end
                 end
+  end.
+
+Definition lookup (H : hcfg) (mt : mtab) (cl : name) (n : fname) : option nat := lookup_d (cdepth H) H mt cl n.
+
+(* target lies on the chain of classes a look-up of n starting at cl walks (cl itself, then its ancestors for as long as
+   the name is inherited) *)
+Fixpoint on_chain (fuel : nat) (H : hcfg) (mt : mtab) (cl : name) (n : fname) (target : name) : Prop :=
+  cl = target \/
+  match fuel with
+  | O => False
+  | S f => mt cl n = MInherit /\ match cparent H cl with Some p => on_chain f H mt p n target | None => False end
   end.
 
 Definition register (c : cfg) (s : st) (mt : mtab) (t : tid) (n : fname) (v : nat) : mtab :=
